@@ -63,6 +63,21 @@ func genC16() {
 						}
 					}
 				}
+			case *ast.AssignStmt:
+				// Run's state machine: which state follows, which start point is passed on
+				if name == "Run" && len(x.Lhs) >= 1 {
+					txt := c12Render(fset, x)
+					if strings.HasPrefix(txt, "state =") || strings.HasPrefix(txt, "state++") ||
+						strings.Contains(txt, "rf.protoHandShake(") || strings.Contains(txt, "rf.preSync(") ||
+						strings.Contains(txt, "rf.metaSync(") || strings.Contains(txt, "rf.rdbSync(") ||
+						strings.Contains(txt, "rf.aofSync(") || strings.Contains(txt, "rf.channel.StartPoint(") {
+						calls = append(calls, name+": "+txt)
+					}
+				}
+			case *ast.IncDecStmt:
+				if name == "Run" {
+					calls = append(calls, name+": "+c12Render(fset, x))
+				}
 			case *ast.CallExpr:
 				s, ok := x.Fun.(*ast.SelectorExpr)
 				if !ok {
@@ -95,6 +110,25 @@ func genC16() {
 	}
 	if gap < 0 {
 		die("preSync: `gap > <constant>` not found")
+	}
+	// ServiceReplica's gate
+	{
+		fset2, f2 := parseFile("syncer/syncer_replica.go")
+		for _, d := range f2.Decls {
+			fd, ok := d.(*ast.FuncDecl)
+			if !ok || fd.Body == nil || fd.Name.Name != "ServiceReplica" {
+				continue
+			}
+			ast.Inspect(fd.Body, func(n ast.Node) bool {
+				switch x := n.(type) {
+				case *ast.IfStmt:
+					calls = append(calls, "ServiceReplica: if "+c12Render(fset2, x.Cond))
+				case *ast.ReturnStmt:
+					calls = append(calls, "ServiceReplica: "+c12Render(fset2, x))
+				}
+				return true
+			})
+		}
 	}
 	facts["c16_calls"] = calls
 	facts["c16_gap_threshold"] = gap
